@@ -31,10 +31,17 @@ func slotInvariant(w *WF, c *Case) func(inc *Inc) {
 		if len(inc.Viol) > 0 {
 			return
 		}
-		sum := 0
+		sum, second := 0, 0
 		run := inc.Sim.Shell.Running()
 		for _, o := range run {
+			if o.Name == "second" && w.ParallelFiles > 0 {
+				second++ // (one-core tasks of the second workflow: a slot pool of its own)
+				continue
+			}
 			sum += cores[o.Name]
+		}
+		if second > w.ParallelSlots && w.ParallelFiles > 0 {
+			inc.Viol = append(inc.Viol, fmt.Sprintf("step %d: %d one-core tasks of the second workflow execute at once, its maxConcurrentTasks=%d (the first workflow has %d)", inc.Sim.Steps, second, w.ParallelSlots, w.MaxTasks))
 		}
 		if len(run) >= 2 {
 			c.Probe("two-commands-overlap")
@@ -63,14 +70,40 @@ func init() {
 		Rule: "one case = one generated workflow with mixed CoresPerTask (1..max) and 1..6 slots under one schedule; the invariant 'sum of cores over tasks between command start and exit <= maxConcurrentTasks' is evaluated after EVERY simulator step (exact, not a lower bound). Some cases pre-place outputs so that skipped tasks interleave. distinct = event-log hash; non-trivial = >=2 tasks executed and >=1 non-default choice",
 		Run: func(c *Case) Verdict {
 			var w *WF
-			if c.Tape.Choose(simrt.StGen, 6, 0) == 1 {
+			switch c.Tape.Choose(simrt.StGen, 6, 0) {
+			case 1:
 				// a streaming producer/consumer pair next to ordinary tasks: the
 				// consumer's command executes too and must be accounted for
 				w = streamWF(c)
 				n := 2 + c.Tape.Choose(simrt.StGen, 4, 0)
 				oneToOne(w, "side", Edge{srcNode(w, "srcside", n, ""), "out"})
-			} else {
+			case 2:
+				// a FileSplitter (a component that executes no task itself) feeding a
+				// process whose tasks keep every slot busy
+				w, _ = componentCaseKind(c, "splitter")
+				for i := range w.Nodes {
+					if w.Nodes[i].Kind == KSplitter {
+						w.Nodes[i].Rec = false
+					}
+				}
+				if w.MaxTasks > 2 {
+					w.MaxTasks = 1 + c.Tape.Choose(simrt.StGen, 2, 0)
+				}
+				c.Probe("splitter-under-full-slots")
+			default:
 				w = Generate(c.Tape, tierProfile(profC06, c.Tier))
+			}
+			if c.Tape.Choose(simrt.StGen, 8, 0) == 1 {
+				// a second, smaller workflow in the same program (created after the
+				// first, run concurrently): 1 or 2 slots, three one-core tasks - each
+				// workflow has its own bound
+				w.Parallel = true
+				w.ParallelSlots = 1 + c.Tape.Choose(simrt.StGen, 2, 0)
+				w.ParallelFiles = 3
+				for i := 0; i < 3; i++ {
+					w.Sources[fmt.Sprintf("second_in_%d.txt", i)] = "input of the second workflow\n"
+				}
+				c.Probe("second-smaller-workflow")
 			}
 			// bias towards multi-core tasks: this check is about them
 			for i := range w.Nodes {
